@@ -23,34 +23,42 @@ COQ_RUN = "run_case"
 TABLE_CONSTRUCTS = ["viz_collect_defaults", "viz_size_base",
                     "viz_check_code", "viz_fixed_code", "viz_split_code", "viz_hex_center_code", "viz_mesh_code",
                     "viz_layers_code", "viz_collect_code", "viz_scatter_code", "viz_altair_code", "viz_altair_enc_code"]
-RULE = ("histories = one space (SingleGrid, MultiGrid, HexSingleGrid, HexMultiGrid, OrthogonalMooreGrid, "
-        "OrthogonalVonNeumannGrid, HexGrid, NetworkGrid, Network, legacy and experimental ContinuousSpace, VoronoiGrid; "
-        "w,h <= 5) + a portrayal table over the keys size/color/marker/zorder (each optional, per agent kind) + "
-        "optional int property layer + 6..22 operations (place/move/remove/kind, layer write, collect, mpl draw, "
-        "altair draw, layer draw in colormap/color mode with optional vmin/vmax/alpha, _check_model_params on a "
-        "generated constructor signature + parameter dict, split_model_params on a mixed dict); every history "
-        "starts from the EMPTY space; non-trivial = at least one drawing/check observation that is not a no-op "
-        "and at least 3 operations; distinct = by SHA1 of the history")
+RULE = ("histories = one space (SingleGrid, MultiGrid, HexSingleGrid, HexMultiGrid, OrthogonalMooreGrid (also capacity=1), "
+        "OrthogonalVonNeumannGrid, HexGrid, NetworkGrid, Network, legacy and experimental ContinuousSpace, VoronoiGrid; w,h <= 5, "
+        "8 % 1x12 / 12x1 / 9x2 / 2x11 / 7x7; 8 % with an agent in every cell) + a portrayal table over size/color/marker/zorder "
+        "(each optional per agent kind; sizes and z-orders multiples of 1/4 passed as int or float) + optional property layer "
+        "(int / float / bool dtype, 20 % constant) + 6..22 operations from: place/move/remove/kind, layer write, collect, "
+        "draw_space, make_space_component (mpl / altair, with and without agent_portrayal), altair _draw_grid data and "
+        "encodings, layer draw (colormap / color mode, optional vmin/vmax incl. vmin == vmax, alpha, colorbar; redraws with the "
+        "SAME portrayal dict after range-changing writes), _check_model_params and the real keyword call on generated "
+        "signatures, split_model_params and ModelCreator on dicts over 13 value forms; variants per history: shared portrayal "
+        "dicts (20 %), colours as hex / RGB / RGBA / mixed (30 %), numpy scalars (20 %), agents with a False truth value (25 %), "
+        "every draw preceded by a draw aborted in the portrayal (15 %); plus all signatures with <= 1 (quick) / <= 2 (thorough) "
+        "parameters x 16 parameter subsets; every history starts from the EMPTY space; non-trivial = at least one "
+        "drawing/check observation that is not a no-op and at least 3 operations; distinct = by SHA1 of the history")
 TRUSTED_BASE = [
-    "Coq 8.16.1 kernel (coqc); vm_compute used for the non-vacuity examples and for evaluating the model in the correspondence",
-    "no axioms: Print Assumptions reports 'Closed under the global context' for every C20 theorem",
-    "harness/tables/viz.py (T1) re-extracting the defaults of collect_agent_data, the 180 of s_default and the two hex parity constants",
-    "harness/props/C20.py driver+observer (reads ax.collections / ax.images / chart.data.values back and decodes "
-    "offsets, sizes, colours, marker paths to integers) and the Gallina literal printer (T2, differential testing, not a proof)",
-    "Model/Viz.v is a hand transcription of collect_agent_data, _scatter, the hex centre formula, _get_hexmesh centres, "
-    "draw_property_layers (orientation), the Altair extractors, _check_model_params, split_model_params; "
-    "numpy mask indexing = list select, dict = association list, Python keyword binding as in Viz.bindable",
-    "Matplotlib / Altair / NumPy / inspect.signature themselves (only the data handed to them is in scope)",
+    "Coq 8.16.1 kernel (coqc); vm_compute for the Examples, the refutation witnesses and the evaluation of the model in the correspondence",
+    "no axioms: Print Assumptions reports 'Closed under the global context' for all 43 C20 theorems",
+    "harness/tables/viz.py (T1 constants: defaults of collect_agent_data, the 180 of s_default) and harness/tables/viz_code.py "
+    "(code-level T1: translates _check_model_params, check_param_is_fixed, split_model_params, the collect loop body, _scatter, "
+    "the hex centre formulas, _get_hexmesh, the orientation expressions of draw_property_layers, the Altair x/y extraction and "
+    "the source dict of the Altair encodings into Gallina, modulo local names / message texts / docstrings) + harness/pyexpr.py",
+    "harness/props/C20.py driver+observer (reads ax.collections / ax.images / colour bars / chart.data.values / chart.encoding / "
+    "the reactive model_parameters back and decodes offsets, sizes, colours, marker paths to integers) and the Gallina printer (T2, differential testing, not a proof)",
+    "Model/Viz.v + Common/VizTypes.v: hand transcription tied to the translated source by the bridge lemmas of Proofs/VizBridge.v; "
+    "numpy mask indexing = list select, dict = association list, cell lists in arrival order, Python keyword binding as Viz.bindable "
+    "(compared with the real call by the Bind operations)",
+    "Matplotlib / Altair / NumPy / Solara / inspect.signature themselves (only the data handed to them is in scope)",
     "Uint63 primitive hash only in scratch Cases files, never under a theorem",
 ]
 ASSUMPTIONS = [
-    "coordinates are ints (continuous positions: multiples of 1/4); colours and markers come from fixed palettes (strings and one tuple marker); "
-    "sizes and z-orders are multiples of 1/4 (whole values passed as int, fractional ones as float), so truncation / coercion of any of the four keys is visible",
+    "coordinates are ints (continuous positions: multiples of 1/4); colours and markers come from fixed palettes (colours in any spelling, one tuple marker); "
+    "sizes and z-orders are multiples of 1/4 (int, float or numpy scalar); layer values are small ints (as int, float or bool arrays)",
     "portrayals return the four keys of the statement only (alpha/edgecolors/linewidths are outside the statement and not generated)",
-    "constructor signatures: the first parameter is named self and model_params has no key 'self'",
-    "property layers are int layers of the grid's shape with a non-degenerate colour scale (vmax > vmin); drawn without colorbar",
-    "network spaces are drawn with an integer layout (layout_alg argument); the default spring layout is checked by the oracle only",
-    "order of markers / chart rows is not part of the statement: compared as sorted rows",
+    "constructor signatures: the first parameter is named self and model_params has no key 'self' (the code skips that name literally)",
+    "vmin <= vmax (vmin > vmax is not generated); the value map of the layers (normalisation, clipping, alpha) is modelled and proved monotone / NaN-free, Matplotlib's colormap itself is not",
+    "network spaces are drawn with an integer layout (layout_alg argument); the default spring layout is checked by the oracle only (floats); a one-node network / coinciding layout (extent 0) is not generated",
+    "order of markers / chart rows is not part of the statement: compared as sorted rows; the Altair encodings are compared as flags (which keys are encoded), not Vega-Lite's rendering of missing values",
 ]
 
 COLORS = ["tab:blue", "tab:orange", "tab:green", "red", "black", "#123456"]
@@ -93,6 +101,8 @@ def _gen_space(rng, cls=None):
     sp = {"cls": cls, "draw_grid": rng.random() < 0.6}
     if fam in ("Orth", "Hex"):
         sp["w"], sp["h"] = rng.randint(1, 5), rng.randint(1, 5)
+        if rng.random() < 0.08:
+            sp["w"], sp["h"] = rng.choice([(1, 12), (12, 1), (9, 2), (2, 11), (7, 7)])     # 1xN and larger shapes
     elif fam == "Net":
         n = rng.randint(2, 6)
         pts = rng.sample([(x, y) for x in range(5) for y in range(4)], n)
@@ -207,13 +217,13 @@ def _gen_check(rng):
 
 def _gen_split(rng):
     names = rng.sample(NAMES[1:], rng.randint(0, 6))
-    return ["split", [[n, rng.choice([0, 0, 1, 2, 2, 3, 4, 5, 6, 7, 8, 9]), rng.randint(0, 50)] for n in names]]
+    return ["split", [[n, rng.choice([0, 0, 1, 2, 2, 3, 4, 5, 6, 7, 8, 9, 10, 11, 12]), rng.randint(0, 50)] for n in names]]
 
 
 def _gen_creator(rng):
     """ModelCreator: a signature + a dict mixing fixed values, Sliders and option dicts"""
     _, sig, ps = _gen_check(rng)
-    return ["creator", sig, [[n, rng.choice([0, 0, 1, 2, 3, 4, 5, 6, 7, 8, 9]), rng.randint(0, 50)] for n in ps]]
+    return ["creator", sig, [[n, rng.choice([0, 0, 1, 2, 3, 4, 5, 6, 7, 8, 9, 10, 11, 12]), rng.randint(0, 50)] for n in ps]]
 
 
 def _gen_layer_op(rng):
@@ -242,11 +252,18 @@ def _gen_case(rng, cls=None, nops=None):
     nk = len(pt)
     ops = []
     n_ids = rng.randint(1, 7)
+    cells = _addresses(sp)
+    fill = cells is not None and len(cells) <= 12 and rng.random() < 0.08      # an agent in every cell / node
     nops = nops or rng.randint(6, 22)
     # the empty space is drawn first in some histories (candidate #30)
     if rng.random() < 0.25:
         ops.append([rng.choice(["mpl", "altair", "collect"])])
-    for i in range(1, 1 + rng.randint(0, n_ids)):
+    if fill:
+        n_ids = len(cells)
+        for i, (x, y) in enumerate(cells, 1):
+            ops.append(["place", i, rng.randrange(nk + 1), x, y])
+        nops = (nops or 0) + len(cells)
+    for i in range(1, 1 + (0 if fill else rng.randint(0, n_ids))):
         x, y = _rand_addr(rng, sp)
         ops.append(["place", i, rng.randrange(nk + 1), x, y])
     while len(ops) < nops:
@@ -294,6 +311,25 @@ def _gen_case(rng, cls=None, nops=None):
     c = {"space": sp, "portrayal": pt, "layer": layer, "ops": ops}
     if rng.random() < 0.2:
         c["shared_dict"] = True      # the portrayal function returns one cached dict per agent kind
+    # value-domain / population variants (none of them changes what the model sees)
+    v = {}
+    if rng.random() < 0.3:
+        v["color_form"] = rng.choice([1, 2, 3, 4])    # colours as '#rrggbb' / (r, g, b) / (r, g, b, a) instead of names; 4: mixed
+    if rng.random() < 0.2:
+        v["np_scalars"] = True                        # sizes and z-orders as numpy scalars
+    if rng.random() < 0.25:
+        v["falsy"] = True                             # agents whose truth value is False (__len__ == 0 / __bool__ False)
+    if rng.random() < 0.15:
+        v["raise_first"] = True                       # every draw is preceded by a draw aborted by an exception in the portrayal
+    if layer is not None and rng.random() < 0.35:
+        v["layer_dtype"] = rng.choice(["float", "bool"])
+        if v["layer_dtype"] == "bool":
+            c["layer"] = [[x % 2 for x in col] for col in layer]
+            for o in ops:
+                if o[0] == "setlayer":
+                    o[3] = o[3] % 2
+    if v:
+        c["variant"] = v
     return c
 
 
@@ -539,6 +575,16 @@ def _color_idx(rgba):
     return -5
 
 
+def _color_any(c):
+    """palette index of a colour in any spelling (name, '#rrggbb', (r, g, b), (r, g, b, a), numpy row)"""
+    if isinstance(c, str) and c in COLORS:
+        return COLORS.index(c)
+    try:
+        return _color_idx(_libs()["to_rgba"](c if isinstance(c, str) else tuple(float(x) for x in c)))
+    except Exception:  # noqa: BLE001
+        return -5
+
+
 def _marker_idx(path):
     lib = _libs()
     np = lib["np"]
@@ -592,8 +638,7 @@ def _read_collect(data, sp):
         else:
             x, y = _decode_xy(sp, loc[i][0], loc[i][1], raw=True)
         sn, sd = _size_frac(data["s"][i])
-        c = data["c"][i]
-        ci = COLORS.index(c) if c in COLORS else -5
+        ci = _color_any(data["c"][i])
         m = data["marker"][i]
         mi = MARKERS.index(m) if m in MARKERS else -5
         rows.append([x, y, sn, sd, ci, mi, _near_int(data["zorder"][i] * 4, "zorder (quarter units)")])
@@ -727,15 +772,16 @@ def run_impl(case):
     ldata = None
     if case.get("layer") is not None and has_layer:
         ldata = [list(col) for col in case["layer"]]
+        ldt = {"float": float, "bool": bool}.get((case.get("variant") or {}).get("layer_dtype"), int)
         if legacy:
             from mesa.space import PropertyLayer
 
-            layer = PropertyLayer("L", sp["w"], sp["h"], 0, dtype=int)
+            layer = PropertyLayer("L", sp["w"], sp["h"], ldt(0), dtype=ldt)
             space.add_property_layer(layer)
         else:
             from mesa.discrete_space import PropertyLayer
 
-            layer = PropertyLayer("L", (sp["w"], sp["h"]), default_value=0, dtype=int)
+            layer = PropertyLayer("L", (sp["w"], sp["h"]), default_value=ldt(0), dtype=ldt)
             space.add_property_layer(layer)
         for x in range(sp["w"]):
             for y in range(sp["h"]):
@@ -749,17 +795,38 @@ def run_impl(case):
     shared = bool(case.get("shared_dict"))
     cache = {}       # kind -> the ONE dict object a caching portrayal returns for that kind
 
+    variant = case.get("variant") or {}
+
+    def num(v):
+        v = _q(v)
+        if variant.get("np_scalars"):
+            v = np.float64(v) if isinstance(v, float) else np.int64(v)
+        return v
+
+    def colour(idx):
+        form = variant.get("color_form", 0)
+        if form == 0:
+            return COLORS[idx]
+        from matplotlib.colors import to_hex
+
+        rgba = lib["rgba"][idx]
+        if form == 4:
+            form = idx % 4
+            if form == 0:
+                return COLORS[idx]
+        return [None, to_hex(rgba), tuple(float(x) for x in rgba[:3]), tuple(float(x) for x in rgba)][form]
+
     def fresh_dict(k):
         d = pt[k] if k < len(pt) else [None] * 4
         out = {}
         if d[0] is not None:
-            out["size"] = _q(d[0])
+            out["size"] = num(d[0])
         if d[1] is not None:
-            out["color"] = COLORS[d[1]]
+            out["color"] = colour(d[1])
         if d[2] is not None:
             out["marker"] = MARKERS[d[2]]
         if d[3] is not None:
-            out["zorder"] = _q(d[3])
+            out["zorder"] = num(d[3])
         return out
 
     def portrayal_fn(agent):
@@ -804,7 +871,19 @@ def run_impl(case):
             from mesa.experimental.continuous_space import ContinuousSpaceAgent
 
             return ContinuousSpaceAgent(space, model)
-        return (mesa.Agent if legacy else CellAgent)(model)
+        base = mesa.Agent if legacy else CellAgent
+        if variant.get("falsy"):
+            # an agent that is a (currently empty) container, or defines its own truth value: `if agent:` is False
+            class Household(base):
+                def __len__(self):
+                    return 0
+
+            class Dormant(base):
+                def __bool__(self):
+                    return False
+
+            return (Household if len(agents) % 2 == 0 else Dormant)(model)
+        return base(model)
 
     def take_out(agent):
         if legacy:
@@ -830,6 +909,21 @@ def run_impl(case):
         return kw
 
     def draw(layer_portrayal=None):
+        if variant.get("raise_first") and shadow:
+            # a draw abandoned half-way (user code raises) must leave nothing behind for the next one
+            calls = []
+
+            def broken(agent):
+                calls.append(1)
+                if len(calls) == len(shadow):
+                    raise RuntimeError("portrayal failed")
+                return portrayal_fn(agent)
+
+            fig0 = lib["Figure"]()
+            try:
+                draw_space(space, broken, propertylayer_portrayal=layer_portrayal, ax=fig0.add_subplot(), **draw_kwargs())
+            except RuntimeError:
+                pass
         fig = lib["Figure"]()
         ax = fig.add_subplot()
         draw_space(space, portrayal_fn, propertylayer_portrayal=layer_portrayal, ax=ax, **draw_kwargs())
@@ -881,7 +975,8 @@ def run_impl(case):
         if mutated(i, "collect"):
             return
         if sorted(rows) != exp:
-            fail("C20/collect/markers-differ", i,
+            fail("C20/collect/falsy-agent-dropped" if variant.get("falsy") and len(rows) < len(exp) else "C20/collect/markers-differ", i,
+                 ("(some agents of this history have a False truth value: __len__() == 0 / __bool__() False) " if variant.get("falsy") else "") +
                  f"collect_agent_data on {cls} with agents {shadow} (id: kind, address) and portrayal table {pt} ([size*4, color, marker, zorder*4] per kind): rows "
                  f"[x,y,size_num,size_den,color,marker,zorder*4] {sorted(rows)}, one per agent as portrayed would be {exp}")
 
@@ -961,7 +1056,8 @@ def run_impl(case):
                 if mutated(i, "collect"):
                     pass
                 elif sorted(rows) != exp:
-                    fail(f"C20/mpl/{fam}/markers-differ", i,
+                    fail("C20/mpl/falsy-agent-dropped" if variant.get("falsy") and len(rows) < len(exp) else f"C20/mpl/{fam}/markers-differ", i,
+                         ("(some agents of this history have a False truth value: __len__() == 0 / __bool__() False) " if variant.get("falsy") else "") +
                          f"draw_space on {cls} {_dims(sp)} with agents {shadow} (id: kind, address), portrayal table {pt} ([size*4, color, marker, zorder*4] per kind): markers read back from "
                          f"ax.collections [x,y,size_num,size_den,color,marker,zorder*4] {sorted(rows)}; exactly one per agent at its location as portrayed is {exp}")
                 if fam == "Hex":
@@ -996,7 +1092,7 @@ def run_impl(case):
                     x, y = _decode_xy(sp, d["x"], d["y"], raw=True)
                     r = [x, y]
                     r += [1, _near_int(d["size"] * 4, "size (quarter units)")] if "size" in d else [0, 0]
-                    r += [1, COLORS.index(d["color"]) if d["color"] in COLORS else -5] if "color" in d else [0, 0]
+                    r += [1, _color_any(d["color"])] if "color" in d else [0, 0]
                     r += [1, MARKERS.index(d["marker"]) if d["marker"] in MARKERS else -5] if "marker" in d else [0, 0]
                     r += [1, _near_int(d["zorder"] * 4, "zorder (quarter units)")] if "zorder" in d else [0, 0]
                     extra = set(d) - {"x", "y", "size", "color", "marker", "zorder"}
@@ -1008,7 +1104,8 @@ def run_impl(case):
                 if mutated(i, "altair"):
                     pass
                 elif sorted(rows) != exp:
-                    fail(f"C20/altair/{fam}/rows-differ", i,
+                    fail("C20/altair/falsy-agent-dropped" if variant.get("falsy") and len(rows) < len(exp) else f"C20/altair/{fam}/rows-differ", i,
+                         ("(some agents of this history have a False truth value: __len__() == 0 / __bool__() False) " if variant.get("falsy") else "") +
                          f"altair _draw_grid on {cls} {_dims(sp)} with agents {shadow}, portrayal table {pt} ([size*4, color, marker, zorder*4] per kind): chart.data.values rows "
                          f"[x,y,(has,value) for size,color,marker,zorder] {sorted(rows)}; one per agent at its location as portrayed is {exp}")
             elif kind in ("mplc", "altairc"):
@@ -1042,7 +1139,7 @@ def run_impl(case):
                         x, y = _decode_xy(sp, d["x"], d["y"], raw=True)
                         r = [x, y]
                         r += [1, _near_int(d["size"] * 4, "size (quarter units)")] if "size" in d else [0, 0]
-                        r += [1, COLORS.index(d["color"]) if d["color"] in COLORS else -5] if "color" in d else [0, 0]
+                        r += [1, _color_any(d["color"])] if "color" in d else [0, 0]
                         r += [1, MARKERS.index(d["marker"]) if d["marker"] in MARKERS else -5] if "marker" in d else [0, 0]
                         r += [1, _near_int(d["zorder"] * 4, "zorder (quarter units)")] if "zorder" in d else [0, 0]
                         extra = set(d) - {"x", "y", "size", "color", "marker", "zorder"} - ({"id"} if dflt else set())
@@ -1054,7 +1151,7 @@ def run_impl(case):
                     obs.append(_rows_obs(rows))
                     exp = _expected_altair(sp, ept, shadow)
                     if not dirty and (sorted(rows) != exp or len(set(ids)) != len(ids)):
-                        fail("C20/component/altair/rows-differ", i,
+                        fail("C20/altair/falsy-agent-dropped" if (variant.get("falsy") and single and legacy and len(rows) < len(exp)) else "C20/component/altair/rows-differ", i,
                              f"make_space_component(backend='altair'{', no agent_portrayal' if dflt else ''})(model) on {cls} {_dims(sp)} with agents {shadow}, "
                              f"portrayal table {ept}: rows of the Chart handed to Solara {sorted(rows)} (ids {ids}); one per agent is {exp}")
             elif kind == "altairenc":
@@ -1085,6 +1182,8 @@ def run_impl(case):
                     uniform = all(f == flags[0] for f in flags)
                     key = ("C20/altair/encoding/later-agents-keys-not-encoded" if (not uniform and hc <= anyc and hs <= anys)
                            else "C20/altair/encoding/portrayed-keys-not-encoded")
+                    if variant.get("falsy") and single and legacy and len(chart.data.values) < len(shadow):
+                        key = "C20/altair/falsy-agent-dropped"       # the agent is missing from the chart altogether
                     fail(key, i,
                          f"_draw_grid on {cls} with agents {shadow} (id: kind, address), portrayal table {pt}: some agent's portrayal returns "
                          f"a colour / size: {[anyc, anys]}, but the chart has colour / size encodings {[hc, hs]} "
@@ -1306,20 +1405,34 @@ def run_impl(case):
             import traceback
 
             obs.append([-1, 99])
+            if isinstance(e, ValueError) and variant.get("color_form") in (2, 3, 4) and kind in ("place", "move", "remove", "kind", "collect", "mpl", "mplc", "layer"):
+                fail("C20/collect/mixed-color-spellings-raise", i,
+                     f"{op} on {cls} with agents {shadow}, portrayal table {pt}, colours given as RGB(A) tuples for some agents and as names "
+                     f"(or the default name) for others: collect_agent_data raised {type(e).__name__}: {e}")
+                continue
             fail(f"C20/{kind}/unexpected-exception" if kind in ("check", "split", "creator", "bind") else f"C20/{kind}/{fam}/unexpected-exception", i,
                  f"{op} on {cls} {_dims(sp)} with agents {shadow} raised {type(e).__name__}: {e} :: {traceback.format_exc()[-600:]}")
     return {"obs": obs, "failures": failures, "model": not spring}
 
 
-TAG_CLASS = {0: 0, 1: 1, 2: 2, 3: 3, 4: 2, 5: 2, 6: 2, 7: 2, 8: 0, 9: 1}     # tag -> fixed / Slider / dict with type / dict without
+TAG_CLASS = {0: 0, 1: 1, 2: 2, 3: 3, 4: 2, 5: 2, 6: 2, 7: 2, 8: 0, 9: 1, 10: 0, 11: 0, 12: 0}     # tag -> fixed / Slider / dict with type / dict without
 TAG_NAME = {0: "fixed int", 1: "Slider", 2: "dict(type=SliderInt)", 3: "dict without type", 4: "dict(type=SliderFloat)",
-            5: "dict(type=Select)", 6: "dict(type=Checkbox)", 7: "dict(type=InputText)", 8: "fixed str", 9: "Slider(float)"}
+            5: "dict(type=Select)", 6: "dict(type=Checkbox)", 7: "dict(type=InputText)", 8: "fixed str", 9: "Slider(float)",
+            10: "fixed None", 11: "fixed tuple", 12: "fixed numpy int"}
 
 
 def _encode_value(tag, v):
     """the Python value carrying the integer payload v in a model_params entry of that form"""
     if tag in (0, 1, 2, 3, 5):
         return v
+    if tag == 10:
+        return None
+    if tag == 11:
+        return (v,)
+    if tag == 12:
+        import numpy as np
+
+        return np.int64(v)
     if tag in (4, 9):
         return v / 2
     if tag == 6:
@@ -1328,6 +1441,12 @@ def _encode_value(tag, v):
 
 
 def _decode_value(val):
+    if val is None:
+        return 0
+    if isinstance(val, tuple) and len(val) == 1:
+        return val[0]
+    if type(val).__module__ == "numpy":
+        val = val.item()
     if isinstance(val, bool):
         return int(val)
     if isinstance(val, float):
@@ -1345,7 +1464,7 @@ def _param_dict(items, Slider, widgets=False):
     params = {}
     for n, tag, v in items:
         val = _encode_value(tag, v)
-        if tag in (0, 8):
+        if tag in (0, 8, 10, 11, 12):
             params[n] = val
         elif tag == 1:
             params[n] = Slider(n, value=val, min=0, max=100)
@@ -1367,7 +1486,7 @@ def _param_dict(items, Slider, widgets=False):
 
 
 def _payload(tag, v):
-    return v % 2 if tag == 6 else v
+    return v % 2 if tag == 6 else (0 if tag == 10 else v)
 
 
 def _show(items):
@@ -1574,19 +1693,27 @@ def nontrivial(case):
     return len(case["ops"]) >= 3 and len(draws) >= 1
 
 
-LEVEL_TEXT = ("Machine-checked Coq theorems over a Gallina transcription of collect_agent_data, _scatter, the hex centre "
-              "formulae, the Altair extractors, draw_property_layers (orientation), _check_model_params and split_model_params: "
-              "for EVERY history of place/move/remove/kind operations on any space family the markers handed to Matplotlib "
-              "are a permutation of one marker per agent in the space, at its drawing location with its portrayal-or-default "
-              "(C20_one_marker_each), likewise the Altair rows (C20_altair_one_row_each); hexagon centres of agents coincide "
-              "with the drawn mesh (C20_hex_center_is_mesh_center); image pixel (col x,row y) and hexagon (x,y) show "
-              "data[x][y] (C20_layer_orientation, C20_hex_layer_orientation); the parameter check accepts exactly the "
-              "keyword-bindable sets of *args-free constructors (C20_check_iff_bindable); the split is a lossless, "
-              "correctly classified partition (C20_split_lossless).  The model is tied to the code by differential "
-              "evaluation on random and enumerated histories read back from ax.collections / chart.data.values (T2); an "
-              "independent oracle states the property on the implementation and supplies the failing input.")
-LEVEL_NOTE = ("Theorems are about the model; Matplotlib/Altair rendering, the spring layout, alpha/edgecolors/linewidths, "
-              "colour-bar drawing and the Solara components are not modelled. Trusted: Coq kernel, the driver/observer, "
-              "CPython call semantics as modelled by Viz.bindable (compared with the real keyword call by the Bind operations of the correspondence). No axioms.")
-TECHNIQUE = "Coq proof (induction over histories, permutation/partition lemmas, closed under global context) + vm_compute correspondence"
+LEVEL_TEXT = ("43 machine-checked Coq theorems (closed under the global context, 13 Examples) over a Gallina model of the drawing data "
+              "of mesa.visualization whose functions are re-generated from the source on every run (code-level T1, 12 constructs) and "
+              "proved equal to the model (bridge lemmas in Proofs/VizBridge.v).  For EVERY history of place/move/remove/kind "
+              "operations on any space family: the markers handed to Matplotlib are a permutation of one marker per agent at its "
+              "drawing location with portrayal-or-default values (C20_one_marker_each, C20_scatter_partition[_of_source]), the same "
+              "for collect_agent_data, the Altair rows and the make_space_component wrappers; the observation the correspondence "
+              "compares IS the canonical form of the required markers (C20_run_case_draw_is_statement); the Altair chart encodes a "
+              "colour / size exactly when some agent portrays one (C20_altair_encoding); hexagon centres coincide with the drawn "
+              "mesh, image pixels / hexagons show data[x][y] of the CURRENT layer (orientation, write, view theorems, also of the "
+              "translated source), the value map is monotone, injective inside [vmin, vmax] and never NaN "
+              "(C20_layer_value_monotone, _values_distinguished, _alpha_proper); _check_model_params accepts exactly the "
+              "keyword-bindable sets of *args-free constructors (C20_check_iff_bindable[_of_source]), ModelCreator checks all given "
+              "names and passes every value through (C20_creator_*), split_model_params is a lossless, correctly classified "
+              "partition.  Tie: T1 translation + bridge proofs, differential evaluation of the model on random and enumerated "
+              "histories read back from ax.collections / images / chart (T2), an independent oracle stating the property on the "
+              "implementation.")
+LEVEL_NOTE = ("Theorems are about the model and the translated code; Matplotlib/Altair rendering, the spring layout (oracle only), "
+              "alpha/edgecolors/linewidths, the drawers' decorations (grid lines, spines) and the Solara widgets other than the "
+              "ModelCreator effects are not modelled.  13 defects of the unchanged tree were found and repaired by fixes/C20-1..13 "
+              "(C20-12 altair falsy agents and C20-13 mixed colour spellings delivered in round 5); refutation witnesses for the "
+              "unrepaired check and first-row encodings are kept as theorems.  Trusted: Coq kernel, the translators, the "
+              "driver/observer, CPython call semantics as compared by the Bind operations.  No axioms.")
+TECHNIQUE = "Coq proof (induction over histories, permutation/partition/sorting lemmas, bridge lemmas to source-translated code) + code-level T1 + vm_compute correspondence"
 DESIGN_REF = "DESIGN.md section 4, C20"
